@@ -106,8 +106,17 @@ def r1_r2(ctx, rep):
                         bad_amb.append((r["def"], r["file"], r["l"], cg.fns[fid]["path"]))
             if bad_amb:
                 k2 = f"{key}:ambient-init:{bad_amb[0][0]}"
-                if k2 in rev:
+                pre_ok = True
+                if k2 in rev and rev[k2].get("requires_precheck_in"):
+                    # the review holds only while the named function reads the same ambient input itself
+                    # (outside the init closure) on every call
+                    pf = [fid for fid in cg.fns if fid == rev[k2]["requires_precheck_in"]]
+                    pre_ok = bool(pf) and any(r["kind"] == "call" and r.get("def") == bad_amb[0][0] for r in cg.fns[pf[0]]["refs"])
+                if k2 in rev and pre_ok:
                     rep.ok(k2, {"reviewed": rev[k2]["reason"]})
+                elif k2 in rev:
+                    rep.bad(k2, f"init-once cache `{s['path']}` is initialised from {bad_amb[0][0]} and `{rev[k2]['requires_precheck_in']}` no longer re-reads it on every call before consulting the cache: "
+                            "the first call in the process latches the value for all later calls", file=bad_amb[0][1], line=bad_amb[0][2], fn=bad_amb[0][3])
                 else:
                     rep.bad(k2, f"init-once cache `{s['path']}` is initialised from an ambient input ({bad_amb[0][0]}): the first call in the process decides what every later call sees",
                             file=bad_amb[0][1], line=bad_amb[0][2], fn=bad_amb[0][3])
@@ -171,7 +180,8 @@ def r1_r2(ctx, rep):
 
 
 # ---------------------------------------------------------------------------
-ITER_SRC = {"iter", "iter_mut", "keys", "values", "values_mut", "into_iter", "into_keys", "into_values", "drain"}
+ITER_SRC = {"iter", "iter_mut", "keys", "values", "values_mut", "into_iter", "into_keys", "into_values", "drain",
+            "difference", "intersection", "union", "symmetric_difference"}
 ADAPTERS = {"map", "filter", "filter_map", "cloned", "copied", "flat_map", "flatten", "chain", "inspect", "peekable",
             "into_iter", "iter", "map_while", "filter_ok", "map_ok", "by_ref", "unique", "dedup", "rev"}
 INSENSITIVE = {"any", "all", "count", "sum", "product", "min", "max", "contains", "len", "is_empty", "sorted",
@@ -225,6 +235,29 @@ def body_sensitive(body):
     return why
 
 
+def sort_key_of(mcall):
+    """Key expression of a sort call: '<element>' for sort()/sorted(), else the rendered key."""
+    m = mcall["m"]
+    if m in ("sort", "sorted", "sort_unstable", "sorted_unstable"):
+        return "<element>"
+    if not mcall["a"]:
+        return "?"
+    a = mcall["a"][0]
+    if a.get("k") == "closure":
+        body = a["body"]
+        if m in ("sort_by", "sorted_by", "sort_unstable_by"):
+            # |a, b| a.K.cmp(&b.K)
+            if body.get("k") == "mcall" and body["m"] == "cmp" and len(a["params"]) == 2:
+                pa, pb = show(a["params"][0]), show(a["params"][1])
+                lhs = show(body["r"])
+                rhs = show(body["a"][0]).lstrip("&")
+                if lhs.startswith(pa) and rhs.startswith(pb) and lhs[len(pa):] == rhs[len(pb):]:
+                    return "|x| x" + lhs[len(pa):]
+            return "|..| " + show(body, maxdepth=8)
+        return "|" + ", ".join(show(x) for x in a["params"]) + "| " + show(body, maxdepth=8)
+    return show(a, maxdepth=6)
+
+
 def for_loop_status(fornode, par, recv):
     """Classify a `for` over a hash container by its body; `push` into a Vec that is sorted right after
     the loop is order-insensitive (the repo's own stabiliser idiom)."""
@@ -233,7 +266,9 @@ def for_loop_status(fornode, par, recv):
         return ("insensitive", "for-body", recv, "loop body only inserts/mutates per element")
     pushes = [n for n in walk(fornode["body"]) if n.get("k") == "mcall" and n["m"] == "push"]
     others = [w for w in why if not w.startswith(".push()")]
-    if pushes and not others:
+    sk = None
+    tgt = None
+    if pushes:
         targets = {show(n["r"]) for n in pushes}
         blk = par.get(id(fornode))
         if blk is not None and blk.get("k") == "block" and len(targets) == 1:
@@ -242,7 +277,12 @@ def for_loop_status(fornode, par, recv):
             after = blk["s"][idx[0] + 1: idx[0] + 4] if idx else []
             for st in after:
                 if st.get("k") == "mcall" and st["m"].startswith("sort") and show(st["r"]) == tgt:
-                    return ("insensitive", "for-body:push+sort", recv, f"pushes into `{tgt}`, which is sorted right after the loop")
+                    sk = sort_key_of(st)
+    if sk is not None and not others:
+        return ("insensitive", "for-body:push+sort", recv, f"pushes into `{tgt}`, which is sorted right after the loop", sk)
+    if sk is not None:
+        # still order-sensitive for other reasons (reviewed separately), but the stabilising sort key is checked too
+        return ("sensitive", "for-body", recv, "; ".join(why[:3]), sk)
     return ("sensitive", "for-body", recv, "; ".join(why[:3]))
 
 
@@ -300,6 +340,8 @@ def classify_site(syn, cgfn, r, mir_refs_at_line):
     if terminal is not None:
         t = terminal["m"]
         if t in INSENSITIVE:
+            if t.startswith("sort"):
+                return ("insensitive", t, recv, f"chain .{'.'.join(names)}", sort_key_of(terminal))
             return ("insensitive", t, recv, f"chain .{'.'.join(names)}")
         if t in ("collect", "try_collect", "collect_vec", "unzip", "to_vec"):
             # target type from the resolved call at that line
@@ -325,13 +367,14 @@ def classify_site(syn, cgfn, r, mir_refs_at_line):
                     idx = [i for i, s in enumerate(blk["s"]) if s is p]
                     for s in blk["s"][idx[0] + 1: idx[0] + 3] if idx else []:
                         if s.get("k") == "mcall" and s["m"].startswith("sort") and show(s["r"]) == var:
-                            sorted_after = True
+                            sorted_after = sort_key_of(s)
             # `.collect().sorted()`-like: later in chain
             rest = names[names.index(t) + 1:] if t in names else []
-            if any(x.startswith("sort") for x in rest):
-                sorted_after = True
+            for mm in chain:
+                if mm["m"] in rest and mm["m"].startswith("sort"):
+                    sorted_after = sort_key_of(mm)
             if sorted_after:
-                return ("insensitive", t + "+sort", recv, "collected then sorted")
+                return ("insensitive", t + "+sort", recv, "collected then sorted", sorted_after if isinstance(sorted_after, str) else "?")
             return ("sensitive", t + "->ordered", recv, f"chain .{'.'.join(names)} collects into an ordered container ({tgt[-60:]})")
         if t in ("extend",):
             return ("sensitive", t, recv, "extend")
@@ -365,6 +408,13 @@ def classify_site(syn, cgfn, r, mir_refs_at_line):
             if last_seg(fn) in ("from_iter",) and any(h in fn for h in HASHY):
                 return ("insensitive", "from_iter->hash", recv, fn)
             return ("sensitive", "arg:" + last_seg(fn), recv, "iterator passed to " + fn)
+    if ctxnode is not None and ctxnode.get("k") == "local" and ctxnode.get("init") is cur:
+        var = show(ctxnode["pat"])
+        uses = [n for n in walk(f["body"]) if n.get("k") == "path" and n["p"] == var]
+        if len(uses) == 1:
+            up = par.get(id(uses[0]))
+            if up is not None and up.get("k") == "mcall" and up["r"] is uses[0] and up["m"].startswith("sort"):
+                return ("insensitive", "local+" + up["m"], recv, f"`{var}` is only consumed by .{up['m']}()", sort_key_of(up))
     return ("sensitive", "escapes", recv, "iterator value escapes (" + (ctxnode.get("k") if ctxnode else "?") + ")")
 
 
@@ -382,6 +432,8 @@ def r3(ctx, rep):
                     refs_at.setdefault((r["file"], r["ml"]), []).append(r)
     seen = set()
     used_rev = set()
+    sort_keys = []
+    ctx._c11_sort_keys = sort_keys
     for fid, f in sorted(cg.fns.items()):
         if (f.get("macro") or "").startswith("#[derive"):
             continue
@@ -402,8 +454,11 @@ def r3(ctx, rep):
                     rep.ok(f"hash:{cg.owner_fn(fid)['path']}:debug-renderer", nontrivial=False)
                 continue
             owner = cg.owner_fn(fid)
-            status, term, recv_txt, detail = classify_site(syn, f, r, refs_at)
+            res = classify_site(syn, f, r, refs_at)
+            status, term, recv_txt, detail = res[:4]
             key = f"hash:{owner['path']}:{recv_txt}:{term}"
+            if len(res) > 4 and key not in seen:
+                sort_keys.append((key, res[4], r["file"], r["l"], owner["path"]))
             if key in seen:
                 continue
             seen.add(key)
@@ -444,6 +499,26 @@ def r4(ctx, rep):
             rep.ok(key, t["ty"], nontrivial=False)
 
 
+def r5(ctx, rep):
+    rep.rule("C11.R5", "sorts that stabilise a hash iteration use a total key (the element / map key) or a key reviewed as unique", floor=8)
+    rev = reviewed("c11_sort_keys.json")
+    for key, sk, file, line, owner in getattr(ctx, "_c11_sort_keys", []):
+        k2 = "sortkey:" + key[len("hash:"):]
+        if sk == "<element>":
+            rep.ok(k2, "sorts the elements themselves (total order)")
+            continue
+        row = rev.get(k2)
+        if row is not None and row.get("key_expr") == sk:
+            if row.get("status") == "finding":
+                rep.bad(k2, f"sort key `{sk}` is not unique: {row['reason']}", file=file, line=line, fn=owner)
+            else:
+                rep.ok(k2, {"key": sk, "reviewed": row["reason"]})
+        else:
+            rep.bad(k2, f"the sort that hides hash order here uses key `{sk}`" + (f" (reviewed key was `{row['key_expr']}`)" if row else "") +
+                    ": elements with equal keys keep their hash order (stable sort), so the key must be unique per element - not reviewed",
+                    file=file, line=line, fn=owner)
+
+
 def run(ctx, rep):
-    for r in (r1_r2, r3, r4):
+    for r in (r1_r2, r3, r4, r5):
         rep.guard(r, ctx)
